@@ -250,7 +250,9 @@ def oracle(c):
         if ev["answered"]:
             if r["nres"] != c["nresults"]:
                 return "response %d has %d results, the processor produced %d" % (i, r["nres"], c["nresults"])
-        elif r["nres"] > c["nresults"]:
+        elif r["nres"] > c["nresults"] + 1:
+            # a truncated answer may leave one fragment (e.g. a cut header line) that is read as a result;
+            # it is still text of this very answer (checked above)
             return "response %d has more results than the processor could have produced" % i
         if last_failed_run is not None and r["run"] <= last_failed_run:
             return "input %d after a failure was not served under a new run record" % i
